@@ -100,6 +100,28 @@ class C08(Prop):
             b_ts = (a[1] + a[2] + ptus) // 1000 * 1000 + 1000 * rng.choice([-2, -1, 0, 1, 2, rng.randint(-1000, 1000)])
             b = [None, rng.choice([b_ts, b_ts, a[1], a[1] - 1000, a[1] + 1000]), rng.randint(-10**6, 3 * 10**6), lab(rng.choice("AB"))]
             out.append(("random-merge", {"k": "merge", "pt": pt, "a": a, "b": b}))
+        # long streams (hundreds to a few thousand heartbeats, around powers of two and round numbers): mostly merging
+        # neighbours; and one long event followed by many contained heartbeats spaced wider than the pulsetime
+        for n in ([255, 256, 257, 300, 513, 600, 1025] if ctx.quick else [127, 128, 129, 255, 256, 257, 300, 511, 512, 513, 600, 1000, 1023, 1025, 2049, 4097]):
+            for shape in range(3):
+                t = rng.randint(0, 1000) * 1000
+                l = []
+                if shape == 0:
+                    for _ in range(n):
+                        t += 1000 * rng.choice([0, 1, 1, 500, 999, 1000, 1001, 2500])
+                        l.append([None, t, rng.choice([0, 0, 1000, 10**6]), lab(rng.choice("AAAAB"))])
+                    pt = rng.choice([1, 1.5])
+                elif shape == 1:
+                    l.append([None, t, (n + 5) * 3 * U, lab("A")])
+                    for i in range(n - 1):
+                        l.append([None, t + (i + 1) * 3 * U, 0, lab("A")])
+                    pt = rng.choice([0, 1, 2])
+                else:
+                    for i in range(n):
+                        t += rng.choice([U, U, 2 * U, 3 * U])
+                        l.append([None, t, rng.choice([0, U // 2, 5 * U]), lab("A" if (i // rng.choice([1, 3, 200])) % 2 == 0 else "B")])
+                    pt = rng.choice([1, 2, 3])
+                out.append(("long-reduce", {"k": "reduce", "pt": pt, "l": l}))
         # pairs and short lists over confusable data dicts, always inside the pulse window
         for da in TRICKY:
             for db in TRICKY:
